@@ -4,9 +4,10 @@ of findMethod) — C08 kernel (the overload that executes is the minimum-cost on
 import re, os
 from tools import cxx2c
 from tools.cxx2c import Lower, Unsupported, kids, qt, qt_sugar, strip, strip_parens, callee_name, norm_type, walk
+from tools.cxx2c import REPO as _REPO
 
 NAME = 'OVL'
-SRC = '/repo/src/bloch/runtime/runtime_evaluator.cpp'
+SRC = _REPO + '/src/bloch/runtime/runtime_evaluator.cpp'
 NAMESPACE = 'bloch::runtime'
 FUNCS = ['isNullReference', 'valueConversionCost', 'argumentsConversionCost']
 AST_FILTER = ['isNullReference', 'RuntimeEvaluator::valueConversionCost', 'RuntimeEvaluator::argumentsConversionCost', 'RuntimeEvaluator::findMethod', 'bloch::runtime::Value']
